@@ -260,7 +260,7 @@ theorem vstep_vinv (db : DB) (h : VInv db) (op : Op) (ok : OpOK db.eager op) (fi
       have g3 := step_inv3 (ghost db P) h3 (.browse w) ok trivial
       obtain ⟨b1, _⟩ := browseGen_cached false db w hc ok
       obtain ⟨b2, _⟩ := browseGen_cached false (ghost db P) w inv.cached ok
-      have e1 : step db (.browse w) = { db with index := db.index.map (browseRec false w) } := b1
+      have e1 : step db (.browse w) = { db with index := db.index.map (browseRec false w (vsOf false db w)) } := b1
       have e2 : step (ghost db P) (.browse w) = ghost (step db (.browse w)) P := by rw [e1]; exact b2
       rw [e2] at g3
       refine ⟨by rw [e1]; exact h.vol, P, g3, fun hn => hP (by rw [e1] at hn; exact hn)⟩
@@ -343,7 +343,7 @@ theorem vstep_vinv (db : DB) (h : VInv db) (op : Op) (ok : OpOK db.eager op) (fi
         exact ⟨trivial, trivial⟩
     | browse w =>
       obtain ⟨b1, _⟩ := browseGen_cached false db w hc ok
-      have e1 : step db (.browse w) = { db with index := db.index.map (browseRec false w) } := b1
+      have e1 : step db (.browse w) = { db with index := db.index.map (browseRec false w (vsOf false db w)) } := b1
       rw [e1]; exact ⟨rfl, rfl⟩
     | applyFlags k fl =>
       show (applyFlags db k fl).effs = db.effs ∧ (applyFlags db k fl).fs = db.fs
@@ -456,7 +456,7 @@ theorem vstep_ghost (db : DB) (hv : db.volatile = true) (P : List Key) (h3 : Inv
     have g3 := step_inv3 (ghost db P) h3 (.browse w) ok trivial
     obtain ⟨b1, _⟩ := browseGen_cached false db w hc ok
     obtain ⟨b2, _⟩ := browseGen_cached false (ghost db P) w inv.cached ok
-    have e1 : step db (.browse w) = { db with index := db.index.map (browseRec false w) } := b1
+    have e1 : step db (.browse w) = { db with index := db.index.map (browseRec false w (vsOf false db w)) } := b1
     have e2 : step (ghost db P) (.browse w) = ghost (step db (.browse w)) P := by rw [e1]; exact b2
     rw [e2] at g3
     refine ⟨by rw [e1]; exact hv, g3, fun hn => hP (by rw [e1] at hn; exact hn)⟩
